@@ -39,7 +39,7 @@ def body(c):
         raise vlib.Inconclusive("AssignEarly=TRUE no longer violates Unique in the model")
     # 2. generated behaviours, replayed with gates
     total, keys, nconf, nrest = 0, set(), 0, 0
-    plans = [("bw2", 2, 10 if q else 12, 1500 if q else 40000), ("bw1", 1, 9 if q else 11, 1500 if q else 40000)]
+    plans = [("bw2", 2, 10 if q else 12, 1500 if q else 12000), ("bw1", 1, 9 if q else 11, 1500 if q else 12000)]
     for name, bw, hl, cap in plans:
         cases = L.gen(c, "SequenceGen", "%s-len%d" % (name, hl),
                       L.K(Objs=[1, 2], BW=bw, MaxStored=1000, MaxVer=1000, MaxRestarts=1, AssignEarly=False, HistLen=hl, MinConflicts=0),
@@ -61,7 +61,7 @@ def body(c):
         # longer behaviours by seeded simulation
         cases = L.gen(c, "SequenceGen", "sim-len18",
                       L.K(Objs=[1, 2], BW=2, MaxStored=1000, MaxVer=1000, MaxRestarts=2, AssignEarly=False, HistLen=18, MinConflicts=1),
-                      invariants=("Emit", "Unique"), simulate=40000, depth=19, seed=c.seed, timeout=900)
+                      invariants=("Emit", "Unique"), simulate=8000, depth=19, seed=c.seed, timeout=900)
         cases = list({json.dumps(h): h for h in cases}.values())
         L.replay(c, "cmd/sm1seq", cases, ["-bw", "2"], "seq-sim18", timeout=1500)
         total += len(cases)
@@ -72,7 +72,7 @@ def body(c):
     c.add_cases(total, keys, traces=total)
     c.cov["rule"] = ("a case = behaviour of SequenceGen of fixed length (all behaviours up to the bound, sampled above the cap with 3/4 of the "
                      "sample containing a commit conflict); non-trivial = at least one number handed out; distinct = distinct step sequences")
-    c.cov["exhaustive"] = not q
+    c.cov["exhaustive"] = False   # sequences are enumerated by TLC, replays above the caps are seeded samples
     c.assumptions += ["the Sequence objects belong to one process/DB instance; the crash part of C30 is covered by the Disk family",
                       "a GetSequence that fails with ErrConflict yields no usable object"]
 
